@@ -963,8 +963,20 @@ fn ref_is_dir(state: &Files, path: &str) -> bool {
     state.keys().any(|k| k.starts_with(&pre) && !is_staging(k))
 }
 
+/// The file a request path names: `.` components and repeated separators do not matter.
+pub fn canon_path(p: &str) -> String {
+    p.split('/').filter(|c| !c.is_empty() && *c != ".").collect::<Vec<_>>().join("/")
+}
+
 fn ref_apply(state: &mut Files, rec: &OpRec) -> Reply {
-    match &rec.op {
+    // aliases of one file (`./f`, `d//x`) are one key of the reference hub
+    let canon_op = match &rec.op {
+        Op::Put { path, expected, content, pieces, declared_hash, declared_len, extra_bytes } => Op::Put { path: canon_path(path), expected: expected.clone(), content: content.clone(), pieces: *pieces, declared_hash: *declared_hash, declared_len: *declared_len, extra_bytes: extra_bytes.clone() },
+        Op::Delete { path, expected } => Op::Delete { path: canon_path(path), expected: expected.clone() },
+        Op::Get { path } => Op::Get { path: canon_path(path) },
+        Op::List => Op::List,
+    };
+    match &canon_op {
         Op::Put { path, content, declared_hash, declared_len, .. } => {
             // only well-formed Puts take part (malformed ones are C10's)
             let _ = (declared_hash, declared_len);
@@ -1034,11 +1046,11 @@ pub fn linearizable(init: &Files, ops: &[OpRec], final_tree: &Files, split_lists
     for o in ops {
         match &o.op {
             Op::Put { path, content, .. } => {
-                universe.insert(path.clone());
-                universe.insert(format!("{path}.conflict-{}", short(&h(content))));
+                universe.insert(canon_path(path));
+                universe.insert(format!("{}.conflict-{}", canon_path(path), short(&h(content))));
             }
             Op::Delete { path, .. } | Op::Get { path } => {
-                universe.insert(path.clone());
+                universe.insert(canon_path(path));
             }
             Op::List => {}
         }
